@@ -20,6 +20,14 @@ def classify_ref(kind, req, model, impl):
 
 FLOAT_TRUST = ["strconv.ParseFloat is specified by Model.Num.parseFloat64 (exact rational rounding) and cross-checked three ways every run (model, strconv, math/big checker)"]
 
+
+def no_probe_kinds(kind, req, model, impl):
+    return None
+
+
+HEAP = ["heap"]
+SCAN = ["pparse", "tokenize", "rpn"]
+
 PROPS = {
     "C01": dict(
         lean=["Ajson.Props.C01"], streams=["decode"], corr_kinds=["decode"], probe_kinds=["ref"], classify=classify_ref,
@@ -34,4 +42,33 @@ PROPS = {
         lean=["Ajson.Props.C03"], streams=["decode"], corr_kinds=["decode"], probe_kinds=[], classify=classify_ref,
         trusted=["span tiling check in the harness (checkSpans) reads the input bytes independently of the borders"],
     ),
+    "C04": dict(
+        lean=["Ajson.Props.C04"], streams=["lex", "heap"], corr_kinds=["quote", "unquote"] + HEAP, probe_kinds=[], classify=no_probe_kinds,
+        trusted=FLOAT_TRUST + ["strconv.FormatFloat(v,'g',-1,64) is a parameter of the model (answers supplied by the harness from the Go standard library)", "encoding/json as validator/decoder of Marshal output"],
+    ),
+    "C05": dict(lean=["Ajson.Props.C05"], streams=["heap"], corr_kinds=HEAP, probe_kinds=[], classify=no_probe_kinds,
+                trusted=["plain-data reference forest in the harness (written from the property statement)"]),
+    "C06": dict(lean=["Ajson.Props.C06"], streams=["heap"], corr_kinds=HEAP, probe_kinds=[], classify=no_probe_kinds, trusted=[]),
+    "C07": dict(lean=["Ajson.Props.C07"], streams=["path", "scan"], corr_kinds=HEAP + SCAN, probe_kinds=[], classify=no_probe_kinds,
+                trusted=["independent JSONPath evaluator over plain data in the harness (pathref.go)"]),
+    "C08": dict(lean=["Ajson.Props.C08"], streams=["path"], corr_kinds=HEAP, probe_kinds=[], classify=no_probe_kinds,
+                trusted=["independent expression evaluator over plain data in the harness (pathref.go)"]),
+    "C09": dict(lean=["Ajson.Props.C09"], streams=["scan", "path"], corr_kinds=HEAP + SCAN, probe_kinds=[], classify=no_probe_kinds,
+                trusted=["independent precedence-climbing grouping + AST interpreter in the harness"]),
+    "C10": dict(lean=["Ajson.Props.C10"], streams=["path"], corr_kinds=HEAP, probe_kinds=[], classify=no_probe_kinds,
+                trusted=["Go math.*, math.Pow, math.Pow10, regexp.MatchString, base64 decoding are parameters of the model (oracle answers from the standard library, called directly by the harness)", "IEEE + - * / through Lean's native Float in the driver (opaque to the kernel)"]),
+    "C11": dict(lean=["Ajson.Props.C11"], streams=["scan", "path", "decode"], corr_kinds=HEAP + SCAN + ["decode"], probe_kinds=[], classify=no_probe_kinds,
+                trusted=["goroutine stack growth and wall-clock time are runtime facts: recover() and a per-query watchdog in the harness"]),
+    "C12": dict(lean=["Ajson.Props.C12"], streams=["race"], corr_kinds=["race"], probe_kinds=[], classify=no_probe_kinds,
+                trusted=["the Go memory model and sync/atomic.Value (trusted, not modelled)", "the Go race detector (go build -race) as the search for counterexamples"], timeout=1800),
+    "C13": dict(lean=["Ajson.Props.C13"], streams=["heap", "path"], corr_kinds=HEAP, probe_kinds=[], classify=no_probe_kinds, trusted=[]),
+    "C14": dict(lean=["Ajson.Props.C14"], streams=["heap"], corr_kinds=HEAP, probe_kinds=[], classify=no_probe_kinds, trusted=[]),
+    "C15": dict(lean=["Ajson.Props.C15"], streams=["heap"], corr_kinds=HEAP, probe_kinds=[], classify=no_probe_kinds, trusted=[]),
+    "C16": dict(lean=["Ajson.Props.C16"], streams=["heap", "path"], corr_kinds=HEAP, probe_kinds=[], classify=no_probe_kinds, trusted=[]),
+    "C17": dict(lean=["Ajson.Props.C17"], streams=["heap"], corr_kinds=HEAP, probe_kinds=[], classify=no_probe_kinds, trusted=[]),
+    "C18": dict(lean=["Ajson.Props.C18"], streams=["heap", "decode"], corr_kinds=HEAP + ["decode"], probe_kinds=[], classify=no_probe_kinds,
+                trusted=["guarded input buffers (sentinel bytes before, after and in the spare capacity) in the harness"]),
+    "C19": dict(lean=["Ajson.Props.C19"], streams=["heap", "path"], corr_kinds=HEAP, probe_kinds=[], classify=no_probe_kinds, trusted=[]),
+    "C20": dict(lean=["Ajson.Props.C20"], streams=["cli"], corr_kinds=["cli"], probe_kinds=[], classify=no_probe_kinds,
+                trusted=["the library's per-document answer is a parameter of the CLI model, computed in-process by the harness exactly as cmd/ajson's apply() does"]),
 }
